@@ -109,6 +109,12 @@ WHAT IS ASSUMED (this file joins the trusted base; each item is a modelling deci
                `from copy import copy`) are `s`; `a - b` is `Gen.setDiff`; `len(s) == 0` / `!= 0` is emptiness — every
                other use of `len(s)` is refused.  `FSet T` is a `frozenset`: `x |= e`, `x &= e`, `x -= e` only re-bind
                `x`; on a `Set T` (a mutable `set`) they update in place and fall under A5.
+  A13 set size  a unit declaring `"sets_nodup"` (the `Poset` unit) keeps every set a DUPLICATE-FREE list, by construction:
+               there a set comprehension must be `{x for x in range(…) if …}`, a set display has one element, a list is
+               never turned into a set, `|` appends only the new elements, `&` and `-` filter; set-typed parameters are
+               sets.  Only there `len(s)` is translated (the length of the list); `for x in s` walks `ord s` (A10).
+               The idiom `if x is None or c: x = e` (no `else`, `x` a declared `Option T`, `e : T`) leaves `x : T`:
+               it becomes `match x with | none => e | some x => if c then e else x`.  `e if c else None` is an `Option`.
   A11 functions a record field declared with `"args"/"ret"` holds a function (`POSet._leq_func`): calling it is an ordinary
                application — the function is assumed pure, total and of the declared type (an exception raised by a
                user-supplied `leq_func` is not modelled); it cannot be used as a value.  `"tvars"` declares type
@@ -596,6 +602,21 @@ class FunctionTranslator:
         v = self.static_eval(n.test)
         if v is not None:
             return self.expr(n.body if v else n.orelse, sc)       # the dead branch is not translated
+        def is_none(x):
+            return isinstance(x, ast.Constant) and x.value is None
+        if is_none(n.body) != is_none(n.orelse) and not self.none_test(n.test, sc):
+            # `e if c else None`: an Option
+            c = self.expr(n.test, sc)
+            if c.ty != BOOL:
+                self.bad('condition is not a bool (truthiness of other types is not translated)', n.test)
+            e = self.expr(n.orelse if is_none(n.body) else n.body, sc)
+            t = self.temp()
+            some = flat(e.pre, 2) + [(2, f'pure (some {e.code})')]
+            if is_none(n.body):
+                lines = [(0, f'(if {c.code} then pure none else do')] + some[:-1] + [(2, some[-1][1] + ')')]
+            else:
+                lines = [(0, f'(if {c.code} then do')] + some + [(1, 'else pure none)')]
+            return E(c.pre + [S('let', lines, t, '←')], t, ('Option', e.ty))
         return self.cond_expr(n.test, sc, lambda s: self.expr(n.body, s), lambda s: self.expr(n.orelse, s), n)
 
     def e_List(self, n, sc):
@@ -623,6 +644,12 @@ class FunctionTranslator:
 
     def e_SetComp(self, n, sc):
         """`{e for x in xs if c}`: the list comprehension, read as a set (a list up to membership)"""
+        if self.unit_cfg().get('sets_nodup'):
+            g = n.generators[0] if len(n.generators) == 1 else None
+            src_ok = g is not None and (isinstance(g.iter, ast.Call) and isinstance(g.iter.func, ast.Name) and g.iter.func.id == 'range'
+                                        and sc.lookup('range') is None)
+            if not (src_ok and isinstance(n.elt, ast.Name) and isinstance(g.target, ast.Name) and n.elt.id == g.target.id):
+                self.bad('in a unit whose sets are kept duplicate-free (A13) a set comprehension must be `{x for x in range(…) if …}`', n)
         r = self.e_ListComp(n, sc)
         if not self.eq_type(r.ty[1]):
             self.bad('set of elements without `==`', n)
@@ -630,6 +657,8 @@ class FunctionTranslator:
 
     def e_Set(self, n, sc):
         xs = [self.expr(v, sc) for v in n.elts]
+        if self.unit_cfg().get('sets_nodup') and len(xs) != 1:
+            self.bad('in a unit whose sets are kept duplicate-free (A13) a set display must have one element', n)
         if not xs or any(x.ty != xs[0].ty for x in xs) or not self.eq_type(xs[0].ty):
             self.bad('set display that is empty / of mixed types / of elements without `==`', n)
         return E([s_ for x in xs for s_ in x.pre], '[' + ', '.join(x.code for x in xs) + ']', ('Set', xs[0].ty))
@@ -692,6 +721,8 @@ class FunctionTranslator:
             one = xs[0].code if xs else None
             if f.id == 'len' and len(xs) == 1 and tys[0][0] == 'List':
                 return E(pre, f'(Fca.Gen.len {one})', NAT)
+            if f.id == 'len' and len(xs) == 1 and tys[0][0] in ('Set', 'FSet') and self.unit_cfg().get('sets_nodup'):
+                return E(pre, f'(Fca.Gen.len {one})', NAT)        # A13: every set of this unit is a duplicate-free list
             if f.id == 'list' and len(xs) == 1 and tys[0][0] == 'List':
                 return E(pre, one, tys[0])               # a copy: indistinguishable without mutation (A5)
             if f.id == 'list' and len(xs) == 1 and tys[0][0] in ('Set', 'FSet'):
@@ -700,12 +731,16 @@ class FunctionTranslator:
                 if not o or tys[0][1] != NAT:
                     self.bad('`list(s)` of a set: the unit of this target declares no iteration-order parameter', n)
                 return E(pre, f'({o} {one})', List_(tys[0][1]))
+            if f.id == 'frozenset' and len(xs) == 1 and tys[0][0] == 'List' and self.unit_cfg().get('sets_nodup'):
+                self.bad('in a unit whose sets are kept duplicate-free (A13) a list is not turned into a set', n)
             if f.id == 'frozenset' and len(xs) == 1 and tys[0][0] in ('Set', 'FSet', 'List') and self.eq_type(tys[0][1]):
                 return E(pre, one, ('FSet', tys[0][1]))
             if f.id == 'copy' and len(xs) == 1 and tys[0][0] in ('Set', 'FSet', 'List') and self.copy_ok:
                 return E(pre, one, tys[0])               # `copy.copy`: a shallow copy (A5)
             if f.id == 'len' and len(xs) == 1 and tys[0][0] == 'Rec' and not pre:
                 return self.method_call(n, args[0], '__len__', [], sc)        # `len(obj)` is `type(obj).__len__(obj)`
+            if f.id in ('set', 'frozenset') and len(xs) == 1 and tys[0][0] == 'List' and self.unit_cfg().get('sets_nodup'):
+                self.bad('in a unit whose sets are kept duplicate-free (A13) a list is not turned into a set', n)
             if f.id == 'set' and len(xs) == 1 and tys[0][0] == 'List' and self.eq_type(tys[0][1]):
                 return E(pre, f'(Fca.Gen.pySet {one})', ('Set', tys[0][1]))
             if f.id in ('all', 'any') and tys == [List_(BOOL)]:
@@ -970,6 +1005,8 @@ class FunctionTranslator:
         if n.orelse:
             self.bad('`for … else`', n)
         it = self.expr(n.iter, sc)
+        if it.ty[0] in ('Set', 'FSet') and it.ty[1] == NAT and self.unit_cfg().get('order_param'):
+            it = E(it.pre, f'({self.unit_cfg()["order_param"]} {it.code})', List_(NAT))     # `for x in s`: A10
         if it.ty[0] != 'List':
             self.bad(f'iteration over {self.show(it.ty)}', n.iter)
         inner = Scope(sc, sc.frame, block=True)
@@ -984,7 +1021,38 @@ class FunctionTranslator:
             if not isinstance(outer.lookup(k), Var):
                 outer.dead.add(k)
 
+    def default_idiom(self, n, sc):
+        """`if x is None or c: x = e` (no else; `x` an `Option T` name, `e : T`, `c` evaluated with `x` narrowed): afterwards
+        `x : T`.  -> `let x ← match x with | none => e | some x => if c then e else x` (e is translated in both scopes)"""
+        t = n.test
+        if not (isinstance(t, ast.BoolOp) and isinstance(t.op, ast.Or) and len(t.values) == 2 and not n.orelse
+                and len(n.body) == 1 and isinstance(n.body[0], ast.Assign) and len(n.body[0].targets) == 1
+                and isinstance(n.body[0].targets[0], ast.Name)):
+            return None
+        nt = self.none_test(t.values[0], sc)
+        if not nt or not nt[1] or nt[0] != n.body[0].targets[0].id or hasattr(n.body[0], 'aug_verdict'):
+            return None
+        name = nt[0]
+        v = sc.lookup(name)
+        if not sc.tail and not (v.scope is sc):
+            return None
+        inner = Scope(sc, sc.frame)
+        inner.vars[name] = Var(v.ty[1], False, inner, narrowed=True)
+        e_none, c, e_some = self.expr(n.body[0].value, sc), self.expr(t.values[1], inner), self.expr(n.body[0].value, inner)
+        if e_none.ty != v.ty[1] or e_some.ty != v.ty[1] or c.ty != BOOL:
+            self.bad(f'`if {name} is None or …: {name} = …`: the new value is not of the type {self.show(v.ty[1])}', n)
+        lines = [(0, f'(match {lname(name)} with'), (1, '| none => do')] + flat(e_none.pre, 2) + [(2, f'pure {e_none.code}'),
+                 (1, f'| some {lname(name)} => do')] + flat(c.pre, 2) + [(2, f'if {c.code} then')] + flat(e_some.pre, 3) + \
+            [(3, f'pure {e_some.code}'), (2, f'else pure {lname(name)})')]
+        mut = self.needs_mut(name, (n.end_lineno, n.end_col_offset), sc)
+        sc.vars[name] = Var(v.ty[1], mut, sc)
+        sc.assigned.append(name)
+        return [S('letmut' if mut else 'let', lines, lname(name), '←')]
+
     def s_If(self, n, sc):
+        idiom = self.default_idiom(n, sc)
+        if idiom is not None:
+            return idiom
         if has_jump(n.body + n.orelse):
             return self.if_native(n, sc, False)
         snap = self.ntemp
